@@ -304,7 +304,8 @@ Record oreply := {
   or_loc : location;
   or_relay : string;
   or_cookies : list ocookie;
-  or_ran : bool
+  or_ran : bool;
+  or_forms : Z                   (* number of <form> elements in the page served (the POST request binding's page has one) *)
 }.
 
 Definition oz (o : option Z) : Z := match o with Some z => z | None => 0 end.
@@ -327,7 +328,9 @@ Definition project_cookie (ck : setcookie) : ocookie :=
   end.
 Definition project (rp : reply) : oreply :=
   {| or_status := rp_status rp; or_loc := rp_location rp; or_relay := rp_relay rp;
-     or_cookies := map project_cookie (rp_cookies rp); or_ran := rp_ran rp |}.
+     or_cookies := map project_cookie (rp_cookies rp); or_ran := rp_ran rp;
+     (* the only page the middleware itself writes is the POST binding's: 200, handler not run *)
+     or_forms := if (rp_status rp =? 200) && negb (rp_ran rp) then 1 else 0 |}.
 
 Definition location_eqb (a b : location) : bool :=
   match a, b with
@@ -340,7 +343,8 @@ Definition ocookie_eqb (a b : ocookie) : bool :=
   && String.eqb (oc_path a) (oc_path b) && (oc_max_age a =? oc_max_age b).
 Definition oreply_eqb (a b : oreply) : bool :=
   (or_status a =? or_status b) && location_eqb (or_loc a) (or_loc b) && String.eqb (or_relay a) (or_relay b)
-  && list_eqb ocookie_eqb (or_cookies a) (or_cookies b) && Bool.eqb (or_ran a) (or_ran b).
+  && list_eqb ocookie_eqb (or_cookies a) (or_cookies b) && Bool.eqb (or_ran a) (or_ran b)
+  && (or_forms a =? or_forms b).
 
 (* ---------- the property as a monitor over the IMPLEMENTATION's replies ---------- *)
 (* the flow (if any) whose authentic cookie sits in the jar under its own name,
@@ -388,11 +392,14 @@ Definition faithful_delivery (m : mw) (r : response) (j : jar) (relay : string) 
    the index signed inside it (and, by cookie_flags_ok, the cookie-name suffix);
    that index is NOT EMPTY — each flow is tracked under a cookie of its own and
    comes back with a RelayState naming it; the recorded URI is the requested one *)
-Definition started_flow_ok (u : string) (o : oreply) : bool :=
+Definition started_flow_ok (cfg : mwcfg) (u : string) (o : oreply) : bool :=
   match or_cookies o with
   | [c] => (oc_kind c =? 1) && String.eqb (or_relay o) (oc_a c) && String.eqb (oc_c c) u && nonempty (oc_a c)
   | _ => false
-  end.
+  end
+  (* the page of the POST binding holds exactly ONE form (this flow's: its RelayState is
+     or_relay, its AuthnRequest ID the request id signed in the cookie); a redirect holds none *)
+  && (or_forms o =? (if m_post_binding cfg then 1 else 0)).
 
 Definition spec_step (m : mw) (a : action) (o : oreply) : bool :=
   let cfg := mw_cfg m in
@@ -417,12 +424,12 @@ Definition spec_step (m : mw) (a : action) (o : oreply) : bool :=
          end
   | Start u idx rid =>
       forallb (cookie_flags_ok cfg false) (or_cookies o) && negb (o_sets_session o)
-      && started_flow_ok u o
+      && started_flow_ok cfg u o
   | Page u j idx rid =>
       forallb (cookie_flags_ok cfg false) (or_cookies o) && negb (o_sets_session o)
       && (if or_ran o then                                                                                (* C16 gate inside histories *)
             match get_session (m_session_name cfg) (m_scodec cfg) (mw_clock m) j with Some _ => true | None => false end
-          else started_flow_ok u o)
+          else started_flow_ok cfg u o)
   | Advance _ => true
   end.
 
